@@ -35,6 +35,11 @@ if REPO not in sys.path:
 SUB = 200
 
 
+#: operators that take a scheduler of their own: also run with the scheduler given to the operator and NONE to subscribe()
+OPSCHED = {"delay", "delay_subscription", "timestamp", "time_interval", "debounce", "throttle_first", "sample", "take_with_time", "skip_with_time",
+           "take_until_with_time", "skip_until_with_time", "take_last_with_time", "skip_last_with_time", "timeout"}
+
+
 def run_resub(op, tl, par):
     """ONE observable (one application of the operator) over a cold source, subscribed at 200 and again at 600: the second
     subscription must see exactly what the first one saw, 400 later (state is allocated per subscription: C04 / frame condition)"""
@@ -62,11 +67,22 @@ def run_real(op, tl, par):
     from reactivex.testing import TestScheduler
     s = TestScheduler()
     o, other = build(s, op, tl, par)
-    res = s.start(lambda: o, disposed=900)
     out = []
-    for m in res.messages:
-        k = m.value.kind
-        out.append((int(m.time), k, m.value.value if k == "N" else None))
+    if par.get("opsched"):
+        # the scheduler is given to the OPERATOR only: subscribe() gets none (the operator must keep time on its own scheduler throughout)
+        box = {}
+
+        def sub(_s, _st):
+            box["d"] = o.subscribe(lambda v: out.append((int(s.clock), "N", v)), lambda e: out.append((int(s.clock), "E", None)),
+                                   lambda: out.append((int(s.clock), "C", None)))
+        s.schedule_absolute(SUB, sub)
+        s.schedule_absolute(900, lambda *_: box["d"].dispose())
+        s.start()
+    else:
+        res = s.start(lambda: o, disposed=900)
+        for m in res.messages:
+            k = m.value.kind
+            out.append((int(m.time), k, m.value.value if k == "N" else None))
     if op in ("timeout", "timeout_with_mapper"):
         # "never after the source terminated": the fallback is subscribed at most once, and only by a switch
         out.append((0, "fallback-subscriptions", len(other.subscriptions)))
@@ -93,35 +109,36 @@ def build(s, op, tl, par):
     else:
         src = s.create_hot_observable(*msgs)
     d = par.get("d", 0)
+    kw = {"scheduler": s} if par.get("opsched") else {}
     if op == "delay":
-        o = src.pipe(ops.delay(d))
+        o = src.pipe(ops.delay(d, **kw))
     elif op == "delay_subscription":
-        o = src.pipe(ops.delay_subscription(d))
+        o = src.pipe(ops.delay_subscription(d, **kw))
     elif op == "timestamp":
-        o = src.pipe(ops.timestamp(), ops.map(lambda t: (t.value, int(round(s.to_seconds(t.timestamp))))))
+        o = src.pipe(ops.timestamp(**kw), ops.map(lambda t: (t.value, int(round(s.to_seconds(t.timestamp))))))
     elif op == "time_interval":
-        o = src.pipe(ops.time_interval(), ops.map(lambda t: (t.value, int(round(s.to_seconds(t.interval))))))
+        o = src.pipe(ops.time_interval(**kw), ops.map(lambda t: (t.value, int(round(s.to_seconds(t.interval))))))
     elif op == "debounce":
-        o = src.pipe(ops.debounce(d))
+        o = src.pipe(ops.debounce(d, **kw))
     elif op == "throttle_first":
-        o = src.pipe(ops.throttle_first(d))
+        o = src.pipe(ops.throttle_first(d, **kw))
     elif op == "sample":
-        o = src.pipe(ops.sample(d))
+        o = src.pipe(ops.sample(d, **kw))
     elif op == "take_with_time":
-        o = src.pipe(ops.take_with_time(d))
+        o = src.pipe(ops.take_with_time(d, **kw))
     elif op == "skip_with_time":
-        o = src.pipe(ops.skip_with_time(d))
+        o = src.pipe(ops.skip_with_time(d, **kw))
     elif op == "take_until_with_time":
-        o = src.pipe(ops.take_until_with_time(s.to_datetime(float(SUB + d)) if par.get("abs") else d))
+        o = src.pipe(ops.take_until_with_time(s.to_datetime(float(SUB + d)) if par.get("abs") else d, **kw))
     elif op == "skip_until_with_time":
-        o = src.pipe(ops.skip_until_with_time(s.to_datetime(float(SUB + d)) if par.get("abs") else d))
+        o = src.pipe(ops.skip_until_with_time(s.to_datetime(float(SUB + d)) if par.get("abs") else d, **kw))
     elif op == "take_last_with_time":
-        o = src.pipe(ops.take_last_with_time(d))
+        o = src.pipe(ops.take_last_with_time(d, **kw))
     elif op == "skip_last_with_time":
-        o = src.pipe(ops.skip_last_with_time(d))
+        o = src.pipe(ops.skip_last_with_time(d, **kw))
     elif op == "timeout":
         other = s.create_cold_observable(ReactiveTest.on_next(5, "fallback"), ReactiveTest.on_completed(10))
-        o = src.pipe(ops.timeout(d, other))
+        o = src.pipe(ops.timeout(d, other, **kw))
     elif op == "throttle_with_mapper":
         o = src.pipe(ops.throttle_with_mapper(lambda v: rx.timer(dv(d, v), scheduler=s)))
     elif op == "timeout_with_mapper":
@@ -392,13 +409,19 @@ def main(argv):
         for par in OPS[op]:
             if resub and (par.get("abs") or par.get("sd") is not None or op == "timestamp" or par.get("feedback")):
                 continue  # absolute instants / clock readings / hot-only variants do not shift with the subscription
-            for tl in timelines():
-                n += 1
-                r = check_resub(op, tl, par) if resub else check(op, tl, par)
-                if r:
-                    found = {"case": {"op": op, "par": par, "timeline": [list(e) for e in tl]}, "disagreement": r}
-                    if resub:
-                        found["case"]["resub"] = True
+            variants = [par]
+            if not resub and not par.get("feedback") and op in OPSCHED:
+                variants.append(dict(par, opsched=True))
+            for pv in variants:
+                for tl in timelines():
+                    n += 1
+                    r = check_resub(op, tl, pv) if resub else check(op, tl, pv)
+                    if r:
+                        found = {"case": {"op": op, "par": pv, "timeline": [list(e) for e in tl]}, "disagreement": r}
+                        if resub:
+                            found["case"]["resub"] = True
+                        break
+                if found:
                     break
             if found:
                 break
